@@ -79,6 +79,16 @@ def handleHammer (args obs : List String) : Verdict :=
     | _, _ => bad "args"
   | _ => bad "arity"
 
+/-- `cntshared <N> <T> <R> | bad= first=`: T threads x R lifetimes of one shared call site, each with its
+    own injector; every lifetime's call outcomes and exit verdict must be those of its own calls
+    (C06_exit applied per lifetime: the verdict depends on that lifetime's k and N only). -/
+def handleShared (args obs : List String) : Verdict :=
+  match args with
+  | [_, _, _] =>
+    let ok := kv obs "bad" == some "0"
+    { agree := ok, propOk := ok, branch := "shared-site", detail := if ok then "" else " key=c06.shared-site-verdict" }
+  | _ => bad "arity"
+
 /-- `life <N> | script:outs:exit script:outs:exit …` (consecutive lifetimes of one call site).
     A script is one call string per installation of the site within the lifetime, joined by `+`
     (`mm+mx`: install, two calls, install again on another function, two calls); a trailing `!`
